@@ -9,7 +9,13 @@ var (
 	clockOn  bool
 	clockNow int64 // unix nanoseconds
 	clockN   uint64
+	clockTrv int64 // simulated time travelled: sum of |jumps| plus the per-read advance
 )
+
+// ClockTravelled returns the simulated time covered so far in this process (ns).
+//
+//go:norace
+func ClockTravelled() int64 { return clockTrv }
 
 // ClockSet switches the simulated clock on and sets it.
 //
@@ -19,7 +25,13 @@ func ClockSet(unixNano int64) { clockOn = true; clockNow = unixNano }
 // ClockJump moves the simulated clock (forwards or backwards).
 //
 //go:norace
-func ClockJump(d time.Duration) { clockNow += int64(d) }
+func ClockJump(d time.Duration) {
+	clockNow += int64(d)
+	if d < 0 {
+		d = -d
+	}
+	clockTrv += int64(d)
+}
 
 // ClockReads counts how often the program read the clock.
 //
@@ -33,6 +45,7 @@ func clockRead() (int64, bool) {
 	}
 	clockN++
 	clockNow += 1000 // every read advances simulated time by a microsecond
+	clockTrv += 1000
 	return clockNow, true
 }
 
